@@ -288,13 +288,15 @@ func (p *Processor) tunnelAuthResponse(errorCode int) []byte {
 	binary.Write(buf, binary.LittleEndian, uint16(HTTP_TUNNEL_AUTH_RESPONSE_FIELD_REDIR_FLAGS|HTTP_TUNNEL_AUTH_RESPONSE_FIELD_IDLE_TIMEOUT)) // fields present
 	binary.Write(buf, binary.LittleEndian, uint16(0))                                                                                        // reserved
 
-	// idle timeout
-	if p.gw.IdleTimeout < 0 {
-		p.gw.IdleTimeout = 0
+	// idle timeout, negative values are reported as 0. The gateway settings are
+	// shared by all tunnels and are not written here
+	idleTimeout := p.gw.IdleTimeout
+	if idleTimeout < 0 {
+		idleTimeout = 0
 	}
 
 	binary.Write(buf, binary.LittleEndian, uint32(makeRedirectFlags(p.gw.RedirectFlags))) // redir flags
-	binary.Write(buf, binary.LittleEndian, uint32(p.gw.IdleTimeout))                      // timeout in minutes
+	binary.Write(buf, binary.LittleEndian, uint32(idleTimeout))                           // timeout in minutes
 
 	return createPacket(PKT_TYPE_TUNNEL_AUTH_RESPONSE, buf.Bytes())
 }
